@@ -32,7 +32,6 @@ package rag
 import (
 	"errors"
 	"fmt"
-	"runtime/debug"
 	"sort"
 	"strings"
 	"testing"
@@ -384,11 +383,8 @@ func c20RunGraph(c c20GraphCase) (string, c20Outcome) {
 						aborted = true
 						return
 					}
-					st := string(debug.Stack())
-					if len(st) > 1800 {
-						st = st[:1800]
-					}
-					msg = fmt.Sprintf("panic in RetrieveWithContext: %v\n%s", r, st)
+					st := c20Stack()
+					msg = fmt.Sprintf("panic in RetrieveWithContext: %v at %s", r, st)
 				}
 			}()
 			win, err = NewAdaptiveRetriever(stub, cfg).RetrieveWithContext("idx", []float32{1, 0}, c.K)
@@ -541,7 +537,7 @@ func c20GenNodeBody(t *rapid.T, nd *c20Node) {
 	default:
 		nd.Rep = rapid.IntRange(1, 40).Draw(t, "rep")
 	}
-	nd.Missing = rapid.IntRange(0, 14).Draw(t, "missing") == 0
+	nd.Missing = rapid.IntRange(0, 14).Draw(t, "missing") == 9
 	nd.Parent = c20Pick(t, []string{"", "docA", "docA", "docB", "docC"}, "parent")
 	nd.IdxKind = rapid.IntRange(0, 3).Draw(t, "idxk")
 	nd.Idx = rapid.IntRange(0, 30).Draw(t, "idx")
@@ -670,13 +666,16 @@ func c20GenGraph() *rapid.Generator[c20GraphCase] {
 		// seeds
 		switch {
 		case n == 0:
-		case rapid.IntRange(0, 7).Draw(t, "allseeds") == 0 && n <= 60:
+		case rapid.IntRange(0, 7).Draw(t, "allseeds") == 3 && n <= 60:
 			for i := 0; i < n; i++ {
 				c.Seeds = append(c.Seeds, (i*7+3)%n)
 			}
 			// (i*7+3)%n may repeat when gcd(7,n) != 1; c20Build dedups
 		default:
-			ns := rapid.IntRange(0, 6).Draw(t, "nseeds")
+			ns := rapid.IntRange(1, 6).Draw(t, "nseeds")
+			if rapid.IntRange(0, 24).Draw(t, "noseeds") == 13 {
+				ns = 0
+			}
 			if c.Shape == "hub500" || c.Shape == "two_level_hubs" {
 				c.Seeds = append(c.Seeds, rapid.IntRange(0, 3).Draw(t, "seed0"))
 			}
@@ -684,12 +683,12 @@ func c20GenGraph() *rapid.Generator[c20GraphCase] {
 				c.Seeds = append(c.Seeds, rapid.IntRange(0, n-1).Draw(t, "seed"))
 			}
 		}
-		if rapid.IntRange(0, 5).Draw(t, "kk") == 0 {
+		if rapid.IntRange(0, 5).Draw(t, "kk") == 3 {
 			c.K = rapid.IntRange(0, len(c.Seeds)+2).Draw(t, "k")
 		} else {
 			c.K = len(c.Seeds) + rapid.IntRange(0, 5).Draw(t, "kextra")
 		}
-		c.SearchErr = rapid.IntRange(0, 39).Draw(t, "search_err") == 0
+		c.SearchErr = rapid.IntRange(0, 59).Draw(t, "search_err") == 31
 
 		// config
 		cfg := &c.Cfg
@@ -893,7 +892,7 @@ func TestVerif_C20_adaptive(t *testing.T) {
 		}
 		return
 	}
-	verifkit.RapidSetup(600, 9000)
+	verifkit.RapidSetup(1200, 64000)
 	gen := c20GenGraph()
 	rapid.Check(t, func(rt *rapid.T) {
 		c := gen.Draw(rt, "graph")
